@@ -116,6 +116,8 @@ let oracle (toks : string list) (obs : string) : (string * bool) list =
       "C02.no_error_in_canonical_scenario", not errs;
       "C02.connect_completes", count (fun r -> r = "E:ConnAccepted") cev = 1 &&
                                count (fun r -> match String.split_on_char ':' r with ["E"; "ConnReq"; _; a] -> a = app | _ -> false) sev = 1;
+      (* C19: both configurations were accepted (canonical scenarios use accepted values only), so the pair must work *)
+      "C19.accepted_config_yields_working_session", (not errs) && (not capped) && count (fun r -> r = "E:ConnAccepted") cev = 1;
     ] in
     let media_expected_pub =
       List.filter_map (function
